@@ -124,6 +124,7 @@ def run(repo, res):
     # ---- R3 messages carry no layout-derived text ------------------------------------------------------
     lint = repo.module_func('supp/linter.py', 'lint')
     from .. import api_model
+    api_model.apply(res, api_model.lint_model(repo), {'lookup': 'C13-R2'}, 'supp/linter.py', lint.lineno)
     nm = api_model.apply(res, api_model.lint_model(repo), {'message': 'C13-R3', 'producers': 'C13-R3'}, 'supp/linter.py', lint.lineno)
     res.count('diagnostic_message_scenarios', nm, floor=12)
     res.note('get_expr_end returns the start of the last *visited* node, not of the textually last one (e.g. '
